@@ -13,6 +13,26 @@ sys.path.insert(0, REPO)
 sys.setrecursionlimit(3000)
 
 
+def _arm_watchdog(pid, tier):
+    """A check that does not finish is an infrastructure failure (exit 2), never a silent hang: after the
+    limit (quick 15 min, thorough 2 h; VERIF_WATCHDOG_S overrides) dump every thread's stack and exit 2."""
+    import faulthandler
+    import threading
+    limit = float(os.environ.get("VERIF_WATCHDOG_S", "900" if tier == "quick" else "7200"))
+
+    def fire():
+        sys.stdout.flush()
+        sys.stderr.write("INFRASTRUCTURE: watchdog: ./check %s %s exceeded %.0f s (exit 2, not a violation); thread stacks follow\n" % (pid, tier, limit))
+        try:
+            faulthandler.dump_traceback(file=sys.stderr, all_threads=True)
+        finally:
+            sys.stderr.flush()
+            os._exit(2)
+    t = threading.Timer(limit, fire)
+    t.daemon = True
+    t.start()
+
+
 def main(argv):
     if len(argv) < 3:
         print(__doc__)
@@ -34,6 +54,7 @@ def main(argv):
         return 2
     os.environ.setdefault("VERIF_TIER", tier)
     seed = int(os.environ.get("VERIF_SEED", "1") or "1")
+    _arm_watchdog(pid, tier)
     import pipeline
     try:
         return pipeline.run_check(prop, tier, seed)
